@@ -1,6 +1,6 @@
 """C09 — set union and intersection mean union and intersection of the versions matched."""
 import lib
-from lib import sx, parse_sx
+from lib import sx
 from gen import ctable, reqtext, cdump
 
 PROOF_FILE = "C09"
@@ -39,6 +39,18 @@ MANIFEST = dict(
     technique="Rocq proof over an executable model + differential correspondence + membership-law oracle on Go outputs",
     design="8 C09")
 
+_PARSED = {}
+_DUMPS = {}
+
+
+def parse_sx(line):
+    """every output line is looked at by several passes: parse it once"""
+    r = _PARSED.get(line)
+    if r is None:
+        r = _PARSED[line] = lib.parse_sx(line)
+    return r
+
+
 SYSTEMS = [0, 4, 1, 2]
 NAMES = reqtext and ["Default", "Cargo", "Go", "Maven", "NPM", "NuGet", "PyPI", "RubyGems", "Composer"]
 
@@ -71,7 +83,7 @@ def project(line):
 
 def gen_cases(ctx):
     rng = ctx.rng
-    n = ctx.scale(9000, 450000)
+    n = ctx.scale(7500, 400000)
     cases = []
     for k in range(n):
         sysi = SYSTEMS[k % 4]
@@ -82,16 +94,20 @@ def gen_cases(ctx):
             a, b, pts = reqtext.shared_endpoint_pair(rng, sysi)
             probes = pts + [x for x in reqtext.probes(rng, sysi, [a, b], n_random=2, cap=16) if x not in pts]
         else:
-            a = reqtext.requirement(rng, sysi, noise)
-            b = reqtext.requirement(rng, sysi, noise)
+            # Go and Cargo have no ||: their operands of several spans come from set texts
+            p_set = 0.3 if sysi in (1, 2) else 0.08
+            a = reqtext.set_text(rng, sysi) if rng.random() < p_set else reqtext.requirement(rng, sysi, noise)
+            b = reqtext.set_text(rng, sysi) if rng.random() < p_set else reqtext.requirement(rng, sysi, noise)
             probes = reqtext.probes(rng, sysi, [a, b])
         c = mk(sysi, a, b, probes)
         c["perm_of"] = None
         cases.append(c)
         if sysi in (0, 4) and rng.random() < 0.35:
-            a2 = shuffle_alts(rng, a)
-            if a2 is not None and a2 != a:
-                c2 = mk(sysi, a2, b, probes)
+            # the same operands with the ||-alternatives of A, of B or of both in another order
+            a2 = (shuffle_alts(rng, a) if rng.random() < 0.7 else None) or a
+            b2 = (shuffle_alts(rng, b) if rng.random() < 0.6 else None) or b
+            if (a2, b2) != (a, b):
+                c2 = mk(sysi, a2, b2, probes)
                 c2["perm_of"] = len(cases) - 1
                 cases.append(c2)
     # regression corpus: the witnesses of the known findings
@@ -124,6 +140,28 @@ class Hit:
         self.idx, self.what, self.probe, self.observed, self.required, self.slot = idx, what, probe, observed, required, slot
 
 
+def add_span_probes(ctx, cases):
+    """second probe pass: Go is asked for the sets first (no probes); the bounds of the spans of
+    A, B and of the four results, as Go holds them, become probes (never cut), with neighbours"""
+    pre = ctx.impl("setop", ["(" + " ".join(c["head"][:3]) + " () ())" for c in cases])
+    ctx.evaluations -= len(cases)
+    out = []
+    for c, line in zip(cases, pre):
+        if line.startswith('("ok"'):
+            r = lib.parse_sx(line)
+            spans = []
+            for x in r[1:7]:
+                spans += cdump.SetInfo(x).spans
+            extra = reqtext.span_probes(ctx.rng, c["sys"], spans, have=c["probes"])
+            ctx.count("span-probes:%d" % min(len(extra) // 4 * 4, 24))
+            if extra:
+                c2 = mk(c["sys"], c["a"], c["b"], c["probes"] + extra)
+                c2["perm_of"] = c.get("perm_of")
+                c = c2
+        out.append(c)
+    return out
+
+
 def oracle(ctx, cases, impl_lines):
     """evaluate the laws of the property on the Go outputs; returns the list of hits"""
     hits = []
@@ -149,6 +187,8 @@ def oracle(ctx, cases, impl_lines):
                 hits.append(Hit(idx, "Empty(%s) differs from Empty(A)" % nm, None, X.empty, A.empty, slot))
         ctx.count("pair:%s:ok" % name)
         ctx.count("spans:%d" % min(len(A.spans) + len(B.spans), 6))
+        if len(A.spans) > 1 or len(B.spans) > 1:
+            ctx.count("multi-span operand:%s" % name)
         for nm, X in (("union", U), ("intersection", I), ("union'", U2), ("intersection'", I2)):
             if not X.ok:
                 ctx.count("op-error:%s" % nm)
@@ -208,14 +248,16 @@ def oracle(ctx, cases, impl_lines):
             continue
         ctx.count("perm-pairs")
         rows1, rows2 = parsed[j][6], parsed[idx][6]
-        for probe, r1, r2 in zip(c["probes"], rows1, rows2):
-            if r1 == [b"verr"] or r2 == [b"verr"]:
+        by_probe = dict(zip(cases[j]["probes"], rows1))
+        for probe, r2 in zip(c["probes"], rows2):
+            r1 = by_probe.get(probe)
+            if r1 is None or r1 == [b"verr"] or r2 == [b"verr"]:
                 continue
             if (r1[4], r1[5]) != (r2[4], r2[5]):
-                hits.append(Hit(idx, "union depends on the order of the ||-alternatives of A (%r vs %r)" % (cases[j]["a"], c["a"]),
+                hits.append(Hit(idx, "union depends on the order of the ||-alternatives of the operands (%r, %r vs %r, %r)" % (cases[j]["a"], cases[j]["b"], c["a"], c["b"]),
                                 probe, (r2[4], r2[5]), (r1[4], r1[5]), "u"))
             if (r1[6], r1[7]) != (r2[6], r2[7]):
-                hits.append(Hit(idx, "intersection depends on the order of the ||-alternatives of A (%r vs %r)" % (cases[j]["a"], c["a"]),
+                hits.append(Hit(idx, "intersection depends on the order of the ||-alternatives of the operands (%r, %r vs %r, %r)" % (cases[j]["a"], cases[j]["b"], c["a"], c["b"]),
                                 probe, (r2[6], r2[7]), (r1[6], r1[7]), "i"))
     return hits, parsed
 
@@ -237,7 +279,8 @@ def classify(ctx, tables, cases, impl_lines, model_lines, hits, parsed):
     """a hit is an instance of an open known finding when the model gives the same answer as Go on
     that case and the model's trace of the operation shows the recorded defect path"""
     open_ids = set(k["id"] for k in lib.load_known("C09") if k.get("status") == "open")
-    same = [project(a) == project(b) for a, b in zip(impl_lines, model_lines)]
+    hit_idx = set(h.idx for h in hits)
+    same = [i not in hit_idx or a == b or project(a) == project(b) for i, (a, b) in enumerate(zip(impl_lines, model_lines))]
     need = sorted(i for i, p in enumerate(parsed) if p is not None)     # every accepted pair: the regions are counted
     # a permuted case is explained by the traces of both orders
     extra = set()
@@ -328,8 +371,10 @@ def model_on_go_sets(ctx, tables, cases, impl_lines, kind):
         if not line.startswith('("ok"'):
             continue
         r = parse_sx(line)
-        da, db = r[1][3], r[2][3]
-        head = [str(c["sys"]), sx(da), sx(db)] if kind == "setop_d" else [sx(da), sx(db)]
+        dumps = _DUMPS.get(line)
+        if dumps is None:
+            dumps = _DUMPS[line] = (sx(r[1][3]), sx(r[2][3]))
+        head = [str(c["sys"]), dumps[0], dumps[1]] if kind == "setop_d" else [dumps[0], dumps[1]]
         if kind == "setop_d":
             head.append(sx(c["probes"]))
         keys = set((0, p) for p in c["probes"])
@@ -359,7 +404,7 @@ def run(ctx):
         toks.append(sx([sysi, reqtext.requirement(rng, sysi if sysi != 8 else 0, 0.5)]))
     ctx.correspond("ctok", toks)
 
-    cases = gen_cases(ctx)
+    cases = add_span_probes(ctx, gen_cases(ctx))
     impl_lines = ctx.impl("setop", ctable.impl_args(cases))
     model_lines = model_on_go_sets(ctx, tables, cases, impl_lines, "setop_d")
     ctx.count("corr:setop", len(cases))
@@ -384,7 +429,7 @@ def run(ctx):
 
 
 def oracle_only(ctx):
-    cases = gen_cases(ctx)
+    cases = add_span_probes(ctx, gen_cases(ctx))
     impl_lines = ctx.impl("setop", ctable.impl_args(cases))
     for h in oracle(ctx, cases, impl_lines)[0]:
         c = cases[h.idx]
